@@ -35,6 +35,7 @@ class GL(list[T]): pass
 S = TypeVar('S')
 class GD(dict[T, S]): pass
 class GS(set[T]): pass
+class GI(dict[S, T], Generic[T, S]): pass      # declared parameter order (T, S) differs from the order in its base: GI[A, B] is a dict[B, A]
 
 def _reg(v, d): VDESC[id(v)] = (d, v); return v
 def _d(v): return VDESC[id(v)][0]
@@ -111,6 +112,7 @@ NS['gt3'] = gt3
 NULLARY += ['type[L0]', 'type[int]', 'type[Union[L0, int]]', 'type[TB]', 'tuple[Annotated[object, ISEQ(5), IS(gt3)]]',
             "list[Annotated[object, ISATTR('x', ISEQ(1))]]", 'Annotated[int, ISEQ(5), IS(gt3)]']
 LEAVES_EXT += ['type[L1]', 'Annotated[object, ISEQ(5), IS(gt3)]']
+NULLARY += ['GI[L0, int]', 'GI[str, L1]', 'list[GI[int, str]]']
 NULLARY += ['GD[L0, T]', 'GD[L0, GS[L1]]', 'GD[GL[L1], GS[int]]', 'GL[GL[L0]]', 'GD[str, GD[int, L0]]', 'list[GD[L0, GL[L1]]]']
 UNARY += ['GS[{0}]']
 # further families: PEP 695 aliases, typing's deprecated aliases, enum literals, Never as an item hint, str as a sequence of str
